@@ -9,13 +9,14 @@ open Petl.Gen
 
 def expectedC12 : List (String × String) := [
   ("file:comparison.py", "c46d05a1308c92ce"),
+  ("file:compat.py", "2a259e16acd200bc"),
   ("file:config.py", "142bde514c82c29d"),
   ("file:transform/basics.py", "ef1ded632cafe787"),
   ("file:transform/conversions.py", "c717da0d8eb0ba94"),
   ("file:transform/fills.py", "dd9addc453365c1c"),
   ("file:transform/headers.py", "b170f0cc5a1c0354"),
   ("file:transform/maps.py", "e13eb9e40cc9aa94"),
-  ("file:transform/regex.py", "6f7519d83abfcff1"),
+  ("file:transform/regex.py", "7acd499a0489265c"),
   ("file:util/base.py", "771a68108eeb730d"),
   ("file:util/materialise.py", "66208e10041a09c8"),
   ("transform.basics.AddColumnView", "946e1a09be0e21a7"),
